@@ -68,13 +68,14 @@ theorem sign1_then_verify (m : Sign1Msg) (ext : Option Bytes) (s : Signer) (v : 
           simp only [ht] at hok ⊢
           cases hsg : s.sign tbs with
           | ok sig =>
-            simp only []
-            have hv := gate_after_sign _ _ _ _ _ hgate (algorithmOf_set _ _)
             have hne := hm.nonempty tbs sig hsg
-            have hlen : blen (some sig) ≠ 0 := by
+            have hz : ¬ sig.length = 0 := by
               cases sig with
               | nil => exact absurd rfl hne
-              | cons a r => simp [blen]
+              | cons a r => simp
+            simp only [hz, if_false]
+            have hv := gate_after_sign _ _ _ _ _ hgate (algorithmOf_set _ _)
+            have hlen : blen (some sig) ≠ 0 := hz
             have ht' : Sign1.toBeSigned { h := { m.h with p := p' }, payload := m.payload, sig := some sig } ext = .ok tbs := ht
             have hp' : m.payload.isNone = false := by cases hq : m.payload <;> simp_all
             simp only [Sign1.verify, hp', Bool.false_eq_true, if_false, hlen, hm.alg, hv, ht']
